@@ -74,6 +74,9 @@ type NodeCfg struct {
 	DNS                  []string // DNS addresses (sorted)
 	EnableUserNameChange bool
 	ActivationEpoch      uint32
+	// LateSchedule: construct the factory with an older schedule, announce the one in force through
+	// GasScheduleChange before the (first) container is created
+	LateSchedule bool
 }
 
 type gasFactory interface {
@@ -119,8 +122,19 @@ func (nd *Node) build() error {
 	for _, d := range nd.Cfg.DNS {
 		dns[d] = struct{}{}
 	}
+	gasMap := nd.Sched.ToMap()
+	if nd.Cfg.LateSchedule {
+		older := nd.Sched.Clone()
+		for k := range older.Base {
+			older.Base[k] += 1000
+		}
+		for k := range older.BuiltIn {
+			older.BuiltIn[k] += 500000
+		}
+		gasMap = older.ToMap()
+	}
 	args := builtInFunctions.ArgsCreateBuiltInFunctionContainer{
-		GasMap:                              nd.Sched.ToMap(),
+		GasMap:                              gasMap,
 		MapDNSAddresses:                     dns,
 		EnableUserNameChange:                nd.Cfg.EnableUserNameChange,
 		Marshalizer:                         nd.Codec,
@@ -132,6 +146,9 @@ func (nd *Node) build() error {
 	fac, err := builtInFunctions.NewBuiltInFunctionsFactory(args)
 	if err != nil {
 		return fmt.Errorf("factory: %w", err)
+	}
+	if nd.Cfg.LateSchedule {
+		fac.GasScheduleChange(nd.Sched.ToMap())
 	}
 	cont, err := fac.CreateBuiltInFunctionContainer()
 	if err != nil {
